@@ -26,6 +26,13 @@ fn main() {
     }
     std::panic::set_hook(Box::new(|_| {}));
     let text = std::fs::read_to_string(&args[1]).expect("read ops file");
+    // `--annotate <file>`: write the op file back with `settle`/`dropall` expanded into the polls
+    // and drops actually performed and the implementation's observed choices appended (` @k=v`)
+    let mut annotate = if args.len() >= 4 && args[2] == "--annotate" {
+        Some(std::io::BufWriter::new(std::fs::File::create(&args[3]).expect("create annotate file")))
+    } else {
+        None
+    };
     let stdout = std::io::stdout();
     let mut out = std::io::BufWriter::new(stdout.lock());
     let mut lines = text.lines().peekable();
@@ -46,6 +53,7 @@ fn main() {
         }
         writeln!(out, "case {}", n).unwrap();
         begin_case();
+        let header = line.to_string();
         let r = std::panic::catch_unwind(std::panic::AssertUnwindSafe(|| {
             let rt = tokio::runtime::Builder::new_current_thread()
                 .enable_time()
@@ -62,6 +70,13 @@ fn main() {
         }));
         for l in take_log() {
             writeln!(out, "{}", l).unwrap();
+        }
+        if let Some(a) = annotate.as_mut() {
+            writeln!(a, "{}", header).unwrap();
+            for l in take_annotated() {
+                writeln!(a, "{}", l).unwrap();
+            }
+            writeln!(a, "end").unwrap();
         }
         if r.is_err() {
             writeln!(out, "#harness-panic").unwrap();
